@@ -1,5 +1,5 @@
 (* C11 oracle.
-   "ast <prefix-serialised AST>"  -> wf supported flow tokens terms lexed lr cert lri
+   "ast <prefix-serialised AST>"  -> wf supported (p|-)(f|n) tokens terms lexed lr cert lri   (p = wf_words_posix, f = faithful)
    "toks <hex>:<kind> ..."        -> lexed lr cert
    AST serialisation (prefix, blank separated; words hex-encoded, "-" = empty):
      clist  := CL seq (N|S|A)            seq := Q1 andor | QS seq (S|A) andor
@@ -125,9 +125,7 @@ let handle (args : string list) : string =
       let p = p_clist st in
       if !st <> [] then raise (Bad "trailing input");
       let toks = tokens p in
-      let flow = (match flow_clist false p with
-                  | None -> "N"
-                  | Some (a, i) -> (if a then "1" else "0") ^ (if i then "1" else "0")) in
+      let flow = (if wf_words_posix p then "p" else "-") in
       let l = shell_lex toks in
       let intended = terms p in
       String.concat " " [
